@@ -4,7 +4,7 @@ From Coq Require Import String.
 From Coq Require Import List ZArith Bool.
 From TR Require Import model.Ring model.Detector model.DetSpec proofs.DetC07 proofs.DetC09.
 (* constants and wiring read from the Go sources on every run *)
-From TR Require Import model.GoSem translated.MotionProcessor proofs.TieCorollaries.
+From TR Require Import model.GoSem translated.MotionProcessor proofs.TieProcCorollaries.
 From TR Require Import proofs.FactsDet.
 From TR Require Import model.DetExt proofs.TieDet.
 Import ListNotations.
